@@ -378,6 +378,9 @@ class PrimalDualHybridGradient(Alg):
 
     def _update(self):
         # Update dual.
+        with self.u_device:
+            u_old = self.u.copy()
+
         util.axpy(self.u, self.sigma, self.A(self.x_ext))
         backend.copyto(self.u, self.proxfc(self.sigma, self.u))
 
@@ -413,8 +416,15 @@ class PrimalDualHybridGradient(Alg):
         with self.x_device:
             xp = self.x_device.xp
             x_diff = self.x - x_old
-            self.resid = xp.linalg.norm(x_diff / self.tau**0.5).item()
+            resid_primal = xp.linalg.norm(x_diff / self.tau**0.5).item()
             backend.copyto(self.x_ext, self.x + theta * x_diff)
+
+        with self.u_device:
+            xp = self.u_device.xp
+            u_diff = self.u - u_old
+            resid_dual = xp.linalg.norm(u_diff / self.sigma**0.5).item()
+
+        self.resid = (resid_primal**2 + resid_dual**2) ** 0.5
 
     def _done(self):
         return (self.iter >= self.max_iter) or (self.resid <= self.tol)
